@@ -336,6 +336,7 @@ func genReq(t *rapid.T, label string, intact *bool) Req {
 				{"empty indexed vector", func(b map[string]any) { pt(b)["vector"] = []any{} }},
 				{"vector given as a string", func(b map[string]any) { pt(b)["vector"] = "memes" }},
 				{"integer field given as a string", func(b map[string]any) { pt(b)["size"] = "12" }},
+				{"float field that is not a number (a string in JSON, NaN in MessagePack)", func(b map[string]any) { pt(b)["price"] = "$NaN" }},
 				{"integer field given as a fraction", func(b map[string]any) { pt(b)["size"] = 3.7 }},
 				{"integer field given as a number beyond 64 bits", func(b map[string]any) { pt(b)["size"] = 1e30 }},
 				{"nested integer field given as a fraction", func(b map[string]any) { pt(b)["meta"] = map[string]any{"k": -0.5} }},
